@@ -77,12 +77,19 @@ def register_run(ctx, it, res):
     register(ctx, it, only_run=True, res=res)
 
 
-def register(ctx, it, only_run=False, res=None):
+def register_all(ctx, it, res):
+    """every exploration of C03 on another property's interpreter (C05, C13: what is received is handed to
+    the protocol machine completely and in order of arrival, end of stream included)"""
+    install_decoders(it)
+    register(ctx, it, only_run=False, res=res, extend=True)
+
+
+def register(ctx, it, only_run=False, res=None, extend=False):
     fsm = it.modules['pynetdicom2.fsm']
     dul = it.modules['pynetdicom2.dulprovider']
     States, Events = fsm.attrs['States'], fsm.attrs['Events']
     res = res or verify.FunctionResult('dulprovider.')
-    infos = list(ctx.extra.get('functions', [])) if only_run else []
+    infos = list(ctx.extra.get('functions', [])) if (only_run or extend) else []
     for q in ('dulprovider.DULServiceProvider._process_incoming', 'dulprovider.DULServiceProvider._check_incoming_pdu',
               'dulprovider.DULServiceProvider._check_network', 'dulprovider.DULServiceProvider.run'):
         fv, _ = verify.lookup_function(it, q)
@@ -245,12 +252,16 @@ def register(ctx, it, only_run=False, res=None):
         after = provider.fields['raw_pdu']
         ob('at-most-one-event-per-call', len(evs) <= 1)
         ob('reports-an-event-iff-one-was-queued', (r is True) == (len(evs) == 1))
+        pdu_event = bool(evs) and evs[0] not in (EV[2], EV[17], EV[18])
         if state['closed_by'] is not None:
-            p.outcome = 'normal'     # the stream has ended
+            # the stream has ended: what arrived before the end is handed on before the end is -- a complete
+            # PDU still buffered must be recognised by this call, not overtaken (and lost) by Evt17
+            complete_b, _f = frame_len(B)
+            ob('a-buffered-complete-pdu-is-recognised-before-the-close', z3.Implies(complete_b, z3.BoolVal(pdu_event)))
+            p.outcome = 'normal'
             return
         d = state['chunk'] if state['chunk'] is not None else b''
         X = z3.Concat(bt(B), bt(d)) if not (isinstance(d, bytes) and d == b'') else bt(B)
-        pdu_event = bool(evs) and evs[0] not in (EV[2], EV[17], EV[18])
         if sta != 4:
             # in every state in which a connection exists (Sta4: it is just being confirmed), a complete
             # PDU in what has been received so far is recognised -- the protocol machine has a cell for
